@@ -6,7 +6,7 @@ EXTENDS NodeConf
 MCSpaceIds == {<<"k1">>, <<"x", "k1">>, <<"y", "k1">>, <<"a", "b", "k1">>, <<"x", "k2">>}
 \* every configuration of the given nodes with every mix of the types that matter for the rings
 \* (addresses and the coordinator type only matter for the life cycle: dynamic instance)
-NodeRecs == [types : SUBSET {"tree", "fileV2"}, addrs : {{}}]
+NodeRecs == [ents : {<<ts>> : ts \in SUBSET {"tree", "fileV2"}}, addrs : {{}}]      \* one entry per peer
 Confs == UNION {[D -> NodeRecs] : D \in SUBSET Nodes}
 MCAllPubs == [ConfIds -> Confs]
 NodeSym == Permutations(Nodes)
@@ -19,7 +19,8 @@ MCDynPubs ==
   LET N1 == CHOOSE n \in Nodes : TRUE
       N2 == CHOOSE n \in Nodes : n # N1
       T == {"tree"}  F == {"fileV2"}  TF == {"tree", "fileV2"}  C == {"coord"}  TC == {"tree", "coord"}
-      R(ts, as) == [types |-> ts, addrs |-> as]
+      R(ts, as) == [ents |-> <<ts>>, addrs |-> as]
+      R2(t1, t2, as) == [ents |-> <<t1, t2>>, addrs |-> as]      \* one peer id, two entries, roles split
       Pair(a, b) == [c \in ConfIds |-> IF c = FirstConf THEN a ELSE b]
   IN { \* the sync set shrinks / changes completely / only irrelevant types change / grows
        Pair(N1 :> R(T, {}) @@ N2 :> R(T, {}),        N1 :> R(T, {})),
@@ -33,6 +34,31 @@ MCDynPubs ==
        Pair(N1 :> R(TC, {"x", "y"}) @@ N2 :> R(T, {}),   N1 :> R(TC, {"x"}) @@ N2 :> R(T, {})),
        Pair(N1 :> R(T, {}) @@ N2 :> R(C, {"x"}),         N1 :> R(T, {})),
        Pair(N1 :> R(T, {}) @@ N2 :> R(TC, {"x"}),        N1 :> R(T, {})),
+       \* a peer listed in two entries with the roles split (coordinator first, sync node later), also as the result of a merge
+       Pair(N1 :> R2(C, T, {"x"}) @@ N2 :> R(T, {}),      N1 :> R2(T, C, {"x"}) @@ N2 :> R(F, {})),
+       Pair(N1 :> R(C, {"x"}) @@ N2 :> R(T, {}),          N1 :> R(T, {}) @@ N2 :> R(T, {})),
        \* ... and one where the merge changes nothing
        Pair(N1 :> R(TC, {"x"}) @@ N2 :> R(T, {}),        N1 :> R(TC, {"x", "y"}) @@ N2 :> R(F, {})) }
+\* quick tier: one pair per class
+MCDynPubsQ ==
+  LET N1 == CHOOSE n \in Nodes : TRUE
+      N2 == CHOOSE n \in Nodes : n # N1
+      T == {"tree"}  F == {"fileV2"}  TF == {"tree", "fileV2"}  C == {"coord"}  TC == {"tree", "coord"}
+      R(ts, as) == [ents |-> <<ts>>, addrs |-> as]
+      R2(t1, t2, as) == [ents |-> <<t1, t2>>, addrs |-> as]      \* one peer id, two entries, roles split
+      Pair(a, b) == [c \in ConfIds |-> IF c = FirstConf THEN a ELSE b]
+  IN { Pair(N1 :> R(T, {}) @@ N2 :> R(T, {}),        N1 :> R(T, {})),
+       Pair(N1 :> R(T, {}) @@ N2 :> R(F, {}),        N1 :> R(F, {}) @@ N2 :> R(T, {})),
+       Pair(N1 :> R(TC, {"x", "y"}) @@ N2 :> R(T, {}),   N1 :> R(TC, {"x"}) @@ N2 :> R(T, {})),
+       Pair(N1 :> R2(C, T, {"x"}) @@ N2 :> R(T, {}),      N1 :> R2(T, C, {"x"}) @@ N2 :> R(F, {})),
+       Pair(N1 :> R(C, {"x"}) @@ N2 :> R(T, {}),          N1 :> R(T, {}) @@ N2 :> R(T, {})) }
+\* lookups in two steps interleaved with the life cycle: a few pairs are enough (the sync set changes / swaps / stays)
+MCRacePubs ==
+  LET N1 == CHOOSE n \in Nodes : TRUE
+      N2 == CHOOSE n \in Nodes : n # N1
+      R(ts) == [ents |-> <<ts>>, addrs |-> {}]
+      Pair(a, b) == [c \in ConfIds |-> IF c = FirstConf THEN a ELSE b]
+  IN { Pair(N1 :> R({"tree"}), N2 :> R({"tree"})),
+       Pair(N1 :> R({"tree"}) @@ N2 :> R({"fileV2"}), N1 :> R({"fileV2"}) @@ N2 :> R({"tree"})),
+       Pair(N1 :> R({"tree"}) @@ N2 :> R({"tree"}), N1 :> R({"tree"}) @@ N2 :> R({"tree", "fileV2"})) }
 =============================================================================
